@@ -22,7 +22,7 @@
    The denotation-level oracle of the correspondence check decides the same statement independently. *)
 From Coq Require Import List String Ascii Arith.
 From PC Require Import Base.Codes Comp.Syntax Comp.Compile Design.Propagate Design.PropagateProofs Design.Designer Design.DesignerProofs Design.TemplateProofs
-  Design.Contraction Design.DGraph Design.DenoteGraph Design.DenoteTie Design.DenoteSat Design.LoadProofs Design.SeedProofs Design.LayoutProofs Design.Loaded.
+  Design.Contraction Design.DGraph Design.DenoteGraph Design.DenoteTie Design.DenoteSat Design.LoadProofs Design.SeedProofs Design.LayoutProofs Design.Loaded Design.BlankProofs.
 Import ListNotations.
 
 Theorem C04_closure_exact_partial : forall g, graph_closed g = true ->
@@ -145,3 +145,20 @@ Theorem C04_seed_is_declarative : forall (p : pspec) (lay : layout) (g : cgraph)
   g_keys g = map fst (g_st g).
 Proof. exact seed_graph. Qed.
 Print Assumptions C04_seed_is_declarative.
+
+(* strand layout: the nucleotides sit exactly where the layout formula says; everything else is blank *)
+Theorem C04_blank_iff_off_strand : forall ls p lay g, load_spec ls pspec0 = OK p -> seed p false = OK (lay, g) ->
+  forall e w s, get_constraints p false = DOk e w s -> forall i, i < List.length s ->
+  (nth_error s i = Some None <-> ~ in_strand p lay i).
+Proof. exact blank_iff_off_strand. Qed.
+Print Assumptions C04_blank_iff_off_strand.
+
+(* every strand starts where the layout formula says and is followed by exactly two blanks *)
+Theorem C04_two_blanks_after_strand : forall ls p lay g, load_spec ls pspec0 = OK p -> seed p false = OK (lay, g) ->
+  forall e w s, get_constraints p false = DOk e w s ->
+  forall pre n its l d post x, p_strands p = pre ++ (n, (its, l, d)) :: post ->
+  (x = width pre + l \/ x = width pre + l + 1) -> x < List.length s ->
+  tstart_of lay n = width pre /\ nth_error s x = Some None /\
+  (forall n' its' l' d' post', post = (n', (its', l', d')) :: post' -> tstart_of lay n' = width pre + l + 2).
+Proof. exact two_blanks_after_strand. Qed.
+Print Assumptions C04_two_blanks_after_strand.
